@@ -5,7 +5,13 @@ notes of section 2)."""
 import common as C
 from trace import USnap, SSnap, parse_cfg, weigh, pred_of, parse_pairs
 
+import collections
+
 PROBE_BASE = 1_000_000   # keys of the refill probe
+
+# how often each oracle actually decided something (reported in the evidence, so that a clause that is
+# never exercised by the generated histories is visible)
+STATS = collections.Counter()
 
 
 def steps(cfg, trace):
@@ -102,10 +108,13 @@ def oracle_lookups(cfg, ops, trace, clauses=("val", "ttl", "tti"), iter_dups=Tru
         v = None
         if o == "G" and out != "-":
             v = ref.justified(int(toks[1]), int(out), now, clauses)
+            STATS["lookups:get_hit_justified"] += 1
         elif o == "C" and out == "1":
             v = ref.justified(int(toks[1]), None, now, clauses)
+            STATS["lookups:contains_true_justified"] += 1
         elif o == "T":
             pairs = parse_pairs(out)
+            STATS["lookups:iter_entries_justified"] += len(pairs)
             keys = [k for k, _ in pairs]
             if iter_dups and len(set(keys)) != len(keys):
                 v = f"iteration yields a key twice: {sorted(keys)}"
@@ -144,6 +153,9 @@ def oracle_iter_complete(cfg, ops, trace):
                 exp = sorted((k, e["v"]) for k, e in s.map.items() if not expired_u(cfg, e, now))
             else:
                 exp = sorted((k, e["v"]) for k, e in s.map.items() if not expired_s(cfg, e, s.va, now))
+            STATS["iter:exact_iterations"] += 1
+            if len(exp) < len(s.map):
+                STATS["iter:iterations_hiding_expired"] += 1
             if pairs != exp:
                 return f"op {i} iteration yields {pairs[:12]} but the cache holds unexpired {exp[:12]}"
         prev = s
@@ -160,6 +172,7 @@ def oracle_counters(cfg, ops, trace):
             continue
         if cfg["kind"] == "unsync" or (s.rq == 0 and s.wq == 0 and toks[0] == "S"):
             phys_w = sum(weigh(cfg, k, e["v"]) for k, e in s.map.items())
+            STATS["counters:states_compared"] += 1
             if s.ec != len(s.map):
                 return f"op {i} `{' '.join(toks)}`: entry_count={s.ec} but the cache physically holds {len(s.map)} entries"
             if s.ws != phys_w:
@@ -174,14 +187,17 @@ def oracle_drops(cfg, ops, trace):
         if failed(out):
             return None
         if state.startswith("dropped"):
+            STATS["drops:cache_drops_checked"] += 1
             if "live=0:0" not in state:
                 return f"after dropping the cache: {state} key/value objects still alive"
             continue
         s = snap(cfg, state)
         if cfg["kind"] == "unsync":
+            STATS["drops:states_compared"] += 1
             if s.live != (len(s.map), len(s.map)):
                 return f"op {i} `{' '.join(toks)}`: live key/value objects {s.live} but {len(s.map)} resident entries"
         elif toks[0] == "S" and s.rq == 0 and s.wq == 0:
+            STATS["drops:states_compared"] += 1
             if s.live != len(s.map):
                 return f"op {i} after sync: {s.live} live value objects but {len(s.map)} resident entries"
             if "lk" in s.raw and int(s.raw["lk"]) != len(s.map):
@@ -216,14 +232,23 @@ def oracle_capacity(cfg, ops, trace):
                     k = int(toks[1])
                     growth = max(0, weigh(cfg, k, int(toks[2])) - weigh(cfg, k, prev.map[k]["v"]))
                 # every other operation first removes a pending excess (up to a batch of entries)
+                STATS["capacity:maintenance_ops_checked"] += 1
+                if growth:
+                    STATS["capacity:growing_updates"] += 1
+                if prev_tot > cap:
+                    STATS["capacity:pending_excess_before_op"] += 1
                 if tot > cap + growth and not batch_limited:
                     return (f"op {i} `{' '.join(toks)}`: resident weight {tot} > max_capacity {cap} after an operation that "
                             f"runs maintenance (excess allowed by this operation's own weight-growing update: {growth})")
             if toks[0] == "I" and (not prev or int(toks[1]) not in prev.map):
                 k = int(toks[1])
+                if weigh(cfg, k, int(toks[2])) > cap:
+                    STATS["capacity:oversized_fresh_inserts"] += 1
                 if weigh(cfg, k, int(toks[2])) > cap and k in s.map:
                     return f"op {i}: fresh insert of weight {weigh(cfg, k, int(toks[2]))} > max_capacity {cap} retained"
         else:
+            if toks[0] == "S" and s.rq == 0 and s.wq == 0:
+                STATS["capacity:quiescent_states_checked"] += 1
             if toks[0] == "S" and s.rq == 0 and s.wq == 0 and tot > cap and len(prev.map) - len(s.map) < 500:
                 return f"op {i} after sync: resident weight {tot} > max_capacity {cap}"
             if len(s.map) > (cap if cfg["weigher"] == "none" else 10 ** 18) + 384 + 1:
@@ -259,6 +284,8 @@ def oracle_no_loss(cfg, ops, trace):
         if no_pressure:
             if o in ("G", "C"):
                 k = int(toks[1])
+                if ref.live(k, now, acc):
+                    STATS["no_loss:live_lookups_must_hit"] += 1
                 if ref.live(k, now, acc) and ((o == "G" and out == "-") or (o == "C" and out == "0")):
                     return f"op {i} `{' '.join(toks)}`: live entry {k}->{ref.r[k][0]} not returned although everything ever inserted fits (max_capacity {cap})"
             if o == "T":
@@ -274,6 +301,7 @@ def oracle_no_loss(cfg, ops, trace):
                 w_new = weigh(cfg, int(toks[1]), int(toks[2]))
             for k in removed:
                 e = prev.map[k]
+                STATS["no_loss:removals_need_cause"] += 1
                 why = (o == "X" and int(toks[1]) == k) or o == "A" or \
                     (o == "P" and pred_of(toks[1:])(k, e["v"])) or expired_u(cfg, e, now) or \
                     (cap is not None and prev.ws > cap) or \
@@ -288,6 +316,7 @@ def oracle_no_loss(cfg, ops, trace):
                 purged = set(exp) if len(exp) <= 100 else set()
                 phys = sum(e["w"] for k, e in prev.map.items() if k not in purged)
                 if cap is None or phys + w_new <= cap:
+                    STATS["no_loss:fitting_inserts_must_be_admitted"] += 1
                     k = int(toks[1])
                     if k not in s.map:
                         return (f"op {i} `{' '.join(toks)}`: new key of weight {w_new} fits (held weight {phys}, "
@@ -300,6 +329,7 @@ def oracle_no_loss(cfg, ops, trace):
             got = dict(parse_pairs(out))
             n_probe = sum(1 for t in ops[: i + 1] if t.startswith("I ") and int(t.split()[1]) >= PROBE_BASE)
             if n_probe and i == len(trace) - 1:
+                STATS["no_loss:refill_probes"] += 1
                 missing = [k for k in range(PROBE_BASE, PROBE_BASE + n_probe) if k not in got]
                 if missing:
                     return f"refill probe: {len(missing)} of {n_probe} fresh unit-weight keys were not retained by an emptied cache of capacity {cap}"
@@ -362,6 +392,7 @@ def oracle_lru(cfg, ops, trace):
             order2 = [k for k in order if k not in expired_removed]
             size_set = [k for k in order2 if k in removed and k not in amb]
             if size_set:
+                STATS["lru:size_removals_checked_prefix"] += 1
                 j = max(order2.index(k) for k in size_set)
                 prefix = order2[: j + 1]
                 stay = [k for k in prefix if k not in removed and k not in amb]
@@ -378,6 +409,7 @@ def oracle_lru(cfg, ops, trace):
                         freed += w(prefix[jj])
                         jj += 1
                     victims = prefix[jj:]
+                    STATS["lru:minimality_checked"] += 1
                     if victims:
                         if not (o == "I" and int(toks[1]) not in prev.map):
                             return f"op {i} `{' '.join(toks)}`: {victims} removed beyond the excess {excess} without an admission"
@@ -393,6 +425,7 @@ def oracle_lru(cfg, ops, trace):
         recency = [k for k in recency if k in s.map]
         if unsync:
             got = [k for k, _, _ in s.prob]
+            STATS["lru:order_vs_history_recency"] += 1
             if got != recency:
                 return f"op {i} `{' '.join(toks)}`: LRU order {got} differs from the recency order of the history {recency}"
         prev = s
@@ -448,6 +481,9 @@ def oracle_admission(cfg, ops, trace):
                     vf += est[x]
                     P.append(x)
                 admit = vw >= w and est[k] > vf
+                STATS[f"admission:{'unsync' if unsync else 'sync'}_predicted_{'admit' if admit else 'reject'}"] += 1
+                if len(P) > 1:
+                    STATS["admission:multi_victim_prefix"] += 1
                 if admit:
                     if k not in s.map or any(x in s.map for x in P) or \
                             set(before.map) - set(s.map) != set(P):
